@@ -17,13 +17,13 @@ Record st := mkSt {
   evs : list bool;
   tick : N;                       (* the shared counter of ARetTick *)
   fcalls : N;                     (* applications of the mapped function / predicate *)
-  seen : list (cid * bool)        (* what ATouch saw, oldest first: (cell, saw nil) *)
+  seen : list (cid * bool);       (* what ATouch saw, oldest first: (cell, saw nil) *)
+  flags : N                       (* ghost: 4 = an exception left the loop of seq(c) after a nested call had stored Realized in c;
+                                            8 = itertools.chain was ended by an exception (concat) *)
 }.
 
-Inductive res := Ok (o : obj) | Exn | OutOfFuel | Bad.
-
 Definition get (s : st) (c : cid) : option cell := nth_error (heap s) c.
-Definition set_heap (s : st) (h : list cell) : st := mkSt h (iters s) (evs s) (tick s) (fcalls s) (seen s).
+Definition set_heap (s : st) (h : list cell) : st := mkSt h (iters s) (evs s) (tick s) (fcalls s) (seen s) (flags s).
 Definition set_cst (s : st) (c : cid) (x : cstate) : st :=
   match get s c with
   | Some k => set_heap s (upd (heap s) c (mkCell x (ncalls k) (nthrows k)))
@@ -42,13 +42,22 @@ Definition note_throw (s : st) (c : cid) (x : cstate) : st :=
 Definition alloc (s : st) (g : gen) : st * cid :=
   (set_heap s (heap s ++ [mkCell (Initialized g) 0 0]), length (heap s)).
 Definition set_iter (s : st) (i : nat) (x : iter) : st :=
-  mkSt (heap s) (upd (iters s) i x) (evs s) (tick s) (fcalls s) (seen s).
+  mkSt (heap s) (upd (iters s) i x) (evs s) (tick s) (fcalls s) (seen s) (flags s).
 Definition set_ev (s : st) (e : nat) : st :=
-  mkSt (heap s) (iters s) (upd (evs s) e true) (tick s) (fcalls s) (seen s).
-Definition bump_tick (s : st) : st := mkSt (heap s) (iters s) (evs s) (N.succ (tick s)) (fcalls s) (seen s).
-Definition bump_f (s : st) : st := mkSt (heap s) (iters s) (evs s) (tick s) (N.succ (fcalls s)) (seen s).
+  mkSt (heap s) (iters s) (upd (evs s) e true) (tick s) (fcalls s) (seen s) (flags s).
+Definition bump_tick (s : st) : st := mkSt (heap s) (iters s) (evs s) (N.succ (tick s)) (fcalls s) (seen s) (flags s).
+Definition bump_f (s : st) : st := mkSt (heap s) (iters s) (evs s) (tick s) (N.succ (fcalls s)) (seen s) (flags s).
+Definition mark_if_realized (s : st) (c : cid) : st :=
+  match nth_error (heap s) c with
+  | Some k => match cst k with
+              | Realized _ => mkSt (heap s) (iters s) (evs s) (tick s) (fcalls s) (seen s) (N.lor (flags s) 4)
+              | _ => s end
+  | None => s
+  end.
+Definition chain_dead (s : st) (it : nat) : st :=
+  mkSt (heap s) (upd (iters s) it (ItChain None [])) (evs s) (tick s) (fcalls s) (seen s) (N.lor (flags s) 8).
 Definition note_seen (s : st) (c : cid) (b : bool) : st :=
-  mkSt (heap s) (iters s) (evs s) (tick s) (fcalls s) (seen s ++ [(c, b)]).
+  mkSt (heap s) (iters s) (evs s) (tick s) (fcalls s) (seen s ++ [(c, b)]) (flags s).
 
 (** Entry points of the code, one constructor each.  Results are objects; a pair (value, rest)
     is returned as [OCons value rest] and "StopIteration" as [ONil]. *)
@@ -115,6 +124,7 @@ Fixpoint ev (fuel : nat) (k : call) (s : st) : st * res :=
             let (s1, r) := ev f (CCompute d) s in
             match r with
             | Ok w' => ev f (CUnwrap c w') s1
+            | Exn => (mark_if_realized s1 c, Exn)
             | e => (s1, e)
             end
         | _ => let o := seq_or_nil w in (set_cst s c (Realized o), Ok o)
@@ -210,6 +220,9 @@ Fixpoint ev (fuel : nat) (k : call) (s : st) : st * res :=
             match r with
             | Ok ONil => ev f (CPull it) s1
             | Ok o => ev f (CPull it) (set_iter s1 it (ItChain (Some o) srcs))
+            | Exn => (chain_dead s1 it, Exn)
+                (* CPython's chain_next: `iterable = PyIter_Next(source); if (iterable == NULL) { Py_CLEAR(source); ...`
+                   -- an exception while advancing to the next input ends the chain for good *)
             | e => (s1, e)
             end
         end
@@ -289,34 +302,6 @@ End Model.
 (* ---------------------------------------------------------------------------------- *)
 (** ** Histories *)
 
-Inductive rootspec :=
-| RObj (o : obj)                          (* an object as it is (OLazy c refers to a scripted cell) *)
-| RMap (f : fn) (r : rootspec)
-| RFilter (p : pred) (r : rootspec)
-| RTake (n : N) (r : rootspec)
-| RIterate (f : fn) (x : N)
-| RConcat (rs : list rootspec)            (* (concat a b ...) *)
-| RItSeq (it : nat).                      (* (iterator-seq <scripted iterator it>) / seq over a Python iterable *)
-
-Inductive op :=
-| OpFirst (r : nat) | OpRest (r : nat) | OpNext (r : nat) | OpSeq (r : nat)
-| OpCount (r : nat) | OpNth (r : nat) (i : nat) | OpIter (r : nat) (limit : nat).
-
-(** What one operation lets the consumer observe. *)
-Inductive obs :=
-| BVal (v : option N)          (* first / nth: a value or nil *)
-| BKind (k : N)                (* rest / next / seq: 0 None, 1 EMPTY, 2 Cons, 3 LazySeq *)
-| BNum (n : N)                 (* count *)
-| BList (l : list N)           (* iteration *)
-| BExn (k : N)                 (* 1 the producer's exception, 2 IndexError, 3 anything else *)
-| BBad.                        (* the model cannot run this (out of fuel, dangling reference, blocked) *)
-
-Definition kind_of (o : obj) : N :=
-  match o with ONil => 0 | OEmpty => 1 | OCons _ _ => 2 | OLazy _ => 3 end%N.
-
-Definition obs_of_res (r : res) (okf : obj -> obs) : obs :=
-  match r with Ok o => okf o | Exn => BExn 1 | _ => BBad end.
-
 Section Run.
 Variable restore : bool.
 Variable fuel : nat.
@@ -338,7 +323,7 @@ Fixpoint build_root (r : rootspec) (s : st) : st * obj :=
         end in
       let (s1, os) := go rs s in
       let it := length (iters s1) in
-      let s2 := mkSt (heap s1) (iters s1 ++ [ItChain None os]) (evs s1) (tick s1) (fcalls s1) (seen s1) in
+      let s2 := mkSt (heap s1) (iters s1 ++ [ItChain None os]) (evs s1) (tick s1) (fcalls s1) (seen s1) (flags s1) in
       let (s3, n) := alloc s2 (GSeqIt it) in (s3, OLazy n)
   | RItSeq it => let (s2, n) := alloc s (GSeqIt it) in (s2, OLazy n)
   end.
@@ -402,4 +387,4 @@ End Run.
 
 Definition init_cell (l : list action) : cell := mkCell (Initialized (GScript l)) 0 0.
 Definition init_st (scripts : list (list action)) (its : list iter) (nev : nat) : st :=
-  mkSt (map init_cell scripts) its (repeat false nev) 0 0 [].
+  mkSt (map init_cell scripts) its (repeat false nev) 0 0 [] 0.
